@@ -168,6 +168,27 @@ Proof.
   - apply K.
   - apply K.
 Qed.
+Lemma eval_seq_good : forall ev, goodP ev -> forall forms st en v r st',
+  eval_seq ev st en forms v = (r, st') -> good st st'.
+Proof.
+  intros ev G. induction forms as [|f rest IH]; simpl; intros st en v r st' E.
+  - inversion E. apply good_refl.
+  - destruct (premark st f) as [st1|] eqn:P; [|inversion E; apply good_refl].
+    apply premark_good in P. destruct (ev st1 en f) as [r1 st2] eqn:E1. apply G in E1. destruct r1.
+    + apply IH in E. eapply good_trans; [eauto|eapply good_trans; eauto].
+    + inversion E; subst. eapply good_trans; eauto.
+    + inversion E; subst. eapply good_trans; eauto.
+Qed.
+Lemma eval_case_good : forall ev, goodP ev -> forall args st en r st',
+  eval_case ev st en args = (r, st') -> good st st'.
+Proof.
+  intros ev G args st en r st'. unfold eval_case. destruct args as [|k clauses]; [intros E; inversion E; apply good_refl|].
+  destruct (eval_args ev st en [k]) as [ar st1] eqn:EA. apply (eval_args_good _ G) in EA.
+  destruct ar as [vs|r0]; [|intros E; inversion E; subst; auto].
+  destruct vs as [|key [|? ?]]; try (intros E; inversion E; subst; auto; fail).
+  destruct (select_clause key clauses) as [forms|]; [|intros E; inversion E; subst; auto].
+  intros E. apply (eval_seq_good _ G) in E. eapply good_trans; eauto.
+Qed.
 Lemma call_lambda_good : forall ev, goodP ev -> forall st en a vs r st',
   call_lambda ev st en a vs = (r, st') -> good st st'.
 Proof.
@@ -190,7 +211,8 @@ Proof.
              [ match type of E with context [apply_bi ?b ?vs ?o] => destruct (apply_bi b vs o) as [r1 o1] end;
                inversion E; subst; eapply good_trans; [exact EA|apply good_set_out]
              | inversion E; subst; auto ]; fail).
-      eapply eval_if_good; eauto.
+      * eapply eval_if_good; eauto.
+      * eapply eval_case_good; eauto.
     + destruct (eval_args (evalM n) st en args) as [ar st1] eqn:EA.
       apply (eval_args_good _ IH) in EA. destruct ar as [vs|r0].
       * apply (call_lambda_good _ IH) in E. eapply good_trans; eauto.
@@ -333,6 +355,53 @@ Proof.
   - apply K.
 Qed.
 
+Lemma eval_seq_sim : forall n ft, simP n ft -> forall forms st en v rS oS, Inv st -> Rel st ft ->
+  eval_bodyS (evalS n ft) en (out st) forms v = (rS, oS) ->
+  exists rM st', eval_seq (evalM n) st en forms v = (rM, st') /\ sim1 rS oS rM st'.
+Proof.
+  intros n ft IH. induction forms as [|f rest IHf]; simpl; intros st en v rS oS I R E.
+  - inversion E; subst. eexists _, _. split; [reflexivity|apply sim1_same].
+  - destruct (premark st f) as [st0|] eqn:P.
+    + pose proof (premark_good _ _ _ P) as [T0 I0]. pose proof (premark_out _ _ _ P) as O0.
+      rewrite <- O0 in E.
+      destruct (evalS n ft en (out st0) f) as [r1 o1] eqn:E1.
+      destruct (IH st0 en f r1 o1 (I0 I) (same_tabs_rel _ _ _ T0 R) E1) as (rM & st1 & EM & [S1 S2]). rewrite EM.
+      pose proof (evalM_good n _ _ _ _ _ EM) as [T1 I1].
+      destruct r1 as [w| |].
+      * destruct (S1 eq_refl) as [-> O1]. rewrite <- O1 in E.
+        apply (IHf st1 en w rS oS (I1 (I0 I)) (same_tabs_rel _ _ _ T1 (same_tabs_rel _ _ _ T0 R)) E).
+      * inversion E; subst. pose proof (S2 eq_refl). destruct rM; [discriminate| |];
+          (eexists _, _; split; [reflexivity|]; split; auto).
+      * inversion E; subst. pose proof (S2 eq_refl). destruct rM; [discriminate| |];
+          (eexists _, _; split; [reflexivity|]; split; auto).
+    + destruct (premark_none _ _ P) as (id & g & r & -> & B & F).
+      exists (Err EUndefined), st. split; auto.
+      pose proof (rel_undef _ _ _ R F) as FT.
+      destruct n as [|n']; simpl in E.
+      * inversion E; subst. split; [discriminate|auto].
+      * rewrite B, FT in E. inversion E; subst. split; [discriminate|auto].
+Qed.
+Lemma eval_case_sim : forall n ft, simP n ft -> forall args st en rS oS, Inv st -> Rel st ft ->
+  eval_caseS (evalS n ft) en (out st) args = (rS, oS) ->
+  exists rM st', eval_case (evalM n) st en args = (rM, st') /\ sim1 rS oS rM st'.
+Proof.
+  intros n ft IH args st en rS oS I R. unfold eval_caseS, eval_case.
+  destruct args as [|k clauses]; [intros E; inversion E; subst; eexists _, _; split; [reflexivity|apply sim1_same]|].
+  destruct (eval_argsS (evalS n ft) en (out st) [k]) as [aS o1] eqn:EA.
+  destruct (eval_args_sim n ft IH [k] st en aS o1 I R EA) as (aM & st1 & EM & A). rewrite EM.
+  pose proof (eval_args_good _ (evalM_good n) _ _ _ _ _ EM) as [T1 I1].
+  destruct aS as [vs|r].
+  - destruct A as [-> O1].
+    destruct vs as [|key [|? ?]]; try (intros E; inversion E; subst; eexists _, _; split; [reflexivity|]; split; auto; fail).
+    destruct (select_clause key clauses) as [forms|];
+      [|intros E; inversion E; subst; eexists _, _; split; [reflexivity|]; split; auto].
+    rewrite <- O1. intros E.
+    apply (eval_seq_sim n ft IH _ st1 _ _ _ _ (I1 I) (same_tabs_rel _ _ _ T1 R) E).
+  - intros E; inversion E; subst. destruct A as [A1 (r' & -> & NV)].
+    eexists _, _. split; [reflexivity|]. split; auto.
+    intros C. destruct (A1 C) as [Q1 Q2]. split; congruence.
+Qed.
+
 Lemma eval_args_stop_nonval : forall ev args st en r st',
   eval_args ev st en args = (AStop r, st') -> is_val r = false.
 Proof.
@@ -405,7 +474,8 @@ Proof.
             eexists _, _. split; [reflexivity|]. split; auto.
             intros C. destruct (A1 C) as [Q1 Q2]. split; congruence. }
         destruct b; try (apply STRICT; [discriminate|exact E]).
-        apply (eval_if_sim n ft IH); auto.
+        -- apply (eval_if_sim n ft IH); auto.
+        -- apply (eval_case_sim n ft IH); auto.
       * pose proof (wrapper_user st id f I B) as W.
         destruct (slookup f ft) as [[ps forms]|] eqn:FT.
         -- (* the name has a definition *)
@@ -434,6 +504,7 @@ Proof.
            inversion E; subst.
            assert (NV : exists rM st', (match wrapper st id f with
                | WOk (CB BIf) => eval_if (evalM n) st en args
+               | WOk (CB BCase) => eval_case (evalM n) st en args
                | WOk (CB b) => match eval_args (evalM n) st en args with
                                | (AVals vs, st1) => let (r, o) := apply_bi b vs (out st1) in (r, set_out st1 o)
                                | (AStop r, st1) => (r, st1) end
@@ -565,14 +636,14 @@ Proof.
   destruct (resolve_or_place_spec _ _ _ _ RP) as [G1 R1].
   assert (G2 : cgood st (set_mark st1 id c)).
   { eapply cgood_trans; [exact G1|]. eapply set_mark_cgood; eauto. }
-  destruct (is_strict c); [|exact G2].
   inversion IH as [|? ? _ IHargs]; subst. clear IH RP R1 G1.
-  revert G2. generalize (set_mark st1 id c). clear st1.
-  induction args as [|a rest IHr]; intros st2 G2; [exact G2|].
+  revert G2. generalize (set_mark st1 id c). generalize 0. clear st1.
+  induction args as [|a rest IHr]; intros i st2 G2; [exact G2|].
   inversion IHargs as [|? ? Pa Prest]; subst.
   apply IHr; auto.
-  destruct a as [| |i ys]; auto.
-  destruct (marked st2 (SList i ys)); auto.
+  destruct (strict_at c i); auto.
+  destruct a as [| |j ys]; auto.
+  destruct (marked st2 (SList j ys)); auto.
   eapply cgood_trans; [exact G2|apply Pa].
 Qed.
 Lemma compile_slot_cgood : forall e st, cgood st (compile_slot st e).
@@ -948,7 +1019,10 @@ Proof.
   destruct e as [z|x|id xs]; auto. destruct xs as [|[z|f|i ys] args]; auto.
   destruct (builtin_of f) as [b|].
   - destruct b; try (rewrite (eval_argsS_ext _ _ IH); reflexivity).
-    apply eval_ifS_ext; auto.
+    + apply eval_ifS_ext; auto.
+    + unfold eval_caseS. destruct args as [|k clauses]; auto.
+      rewrite (eval_argsS_ext _ _ IH). destruct (eval_argsS (evalS n ft') en o [k]) as [[[|key [|? ?]]|r] o1]; auto.
+      destruct (select_clause key clauses); auto. apply eval_bodyS_ext; auto.
   - rewrite H. destruct (slookup f ft') as [[ps forms]|]; auto.
     rewrite (eval_argsS_ext _ _ IH). destruct (eval_argsS (evalS n ft') en o args) as [[vs|r] o1]; auto.
     destruct (Nat.ltb _ _); auto. apply eval_bodyS_ext; auto.
